@@ -205,7 +205,7 @@ static int pick_k(double maxabs, int bits) {
 static long long fxq(double v, int k) {
   if (!std::isfinite(v)) { g_bad = true; return 0; }
   double s = std::ldexp(v, k);
-  if (std::fabs(s) > 2.0e9) { g_bad = true; return 0; }
+  if (std::fabs(s) > 536870912.0) { g_bad = true; return 0; } // 2^29: sums of two recorded numbers stay below 2^31 in TLC
   return std::llround(s);
 }
 static double maxabs(const std::vector<float>& v) {
@@ -801,7 +801,7 @@ static void run_rel(vh::Trace& tr, vh::Rng& rng, int idx, bool big) {
         double v1 = 0;
         vh::threw([&] { v1 = p.compute_value(*y); });
         std::vector<float> g1 = gradient(p, *y);
-        const int kv = std::min(pick_k(std::max(std::fabs(v0), std::fabs(v1)), 30), 36);
+        const int kv = std::min(pick_k(std::max(std::fabs(v0), std::fabs(v1)), 28), 36);
         const int kg = kv - hk;
         vh::Json j("FDV");
         j.num("i", i + 1).num("hk", hk).num("kv", kv).num("kg", kg).num("v0", fxq(v0, kv)).num("v1", fxq(v1, kv)).num("g0", fxq(g0[i], kg)).num("g1", fxq(g1[i], kg));
@@ -835,7 +835,7 @@ static void run_rel(vh::Trace& tr, vh::Rng& rng, int idx, bool big) {
           G0.push_back(ga[jx]); G1.push_back(ga1[jx]); H0.push_back(r0[i]); H1.push_back(r1[i]);
         }
         if (js.empty()) continue;
-        const int kg = std::min(pick_k(std::max(maxabs(G0), maxabs(G1)), 28), 34);
+        const int kg = std::min(std::min(pick_k(std::max(maxabs(G0), maxabs(G1)), 28), pick_k(std::max(maxabs(H0), maxabs(H1)), 28) + hk), 34);
         const int kh = kg - hk;
         vh::Json j("FDG");
         j.num("i", i + 1).num("pass", pass).num("hk", hk).num("kg", kg).num("kh", kh).num("xk", 3).arr("x", fxv(bv, 3)).arr("js", js)
